@@ -316,6 +316,12 @@ func vH_C09_readonly() {
 		vAssert("flush-ok", s.Flush() == nil)
 		before = append([]byte(nil), f.data...)
 		if vChoose("reopen", 0, 1) == 1 {
+			// optionally a torn tail behind the last root record
+			if nj := vChoose("tail-junk", 0, vParam("tailjunk")); nj > 0 {
+				f.data = append(f.data, vBytes("tail", nj)...)
+				before = append([]byte(nil), f.data...)
+				vCover("torn-tail")
+			}
 			f.resetLogs()
 			s2, err := NewStore(f)
 			vTrace("NewStore")
@@ -362,6 +368,7 @@ func vH_C09_readonly() {
 		sc.GetItem(key, wv)
 		sc.VisitItemsAscend(nil, wv, func(i *Item) bool { return true })
 		vAssert("snapshot-refuses-flush", sn.Flush() != nil)
+		vAssert("snapshot-refuses-write", sc.Write() != nil)
 		vAssert("snapshot-refuses-set", sc.Set(key, []byte{1}) != nil)
 		_, derr := sc.Delete(key)
 		vAssert("snapshot-refuses-delete", derr != nil)
